@@ -9,7 +9,8 @@
 //
 //   - cfg.KeySize "short" (public keys in G1, signatures in G2) | "long" (the converse);
 //     cfg.Mode "basic" | "aug" | "pop" (rogue-key prevention of the TARGET scheme).
-//   - Key material: trusted dealer of drive/keys (stream vh.NewRng(Seed, Prop, "deal", 0)) for
+//   - Key material: drive/keys.Material (trusted dealer on stream vh.NewRng(Seed, Prop, "deal", 0),
+//     or the real Gennaro DKG with cfg.KeySource = "gennaro") for
 //     cfg.Policy over the key group (G1 resp. G2 of BLS12-381), converted with
 //     boldyreva02/keygen.NewShortKeyShard / NewLongKeyShard.
 //   - Signing is deterministic; the per-party tapes exist (and stay empty). Mark "new" during
@@ -126,7 +127,9 @@ func RunFull(cfg Config) *Result {
 	switch cfg.KeySize {
 	case "", "short":
 		return run[g1, f1, g2, f2, gt, sc](cfg, bls.ShortKey, bls12381.NewG1(), bls12381.NewG2(),
-			func(b *mpc.BaseShard[g1, sc]) (*boldyreva02.Shard[g1, f1, g2, f2, gt, sc], error) { return keygen.NewShortKeyShard[g1, f1, g2, f2, gt, sc](b) },
+			func(b *mpc.BaseShard[g1, sc]) (*boldyreva02.Shard[g1, f1, g2, f2, gt, sc], error) {
+				return keygen.NewShortKeyShard[g1, f1, g2, f2, gt, sc](b)
+			},
 			func(ctx *rsess.Context, sh *boldyreva02.Shard[g1, f1, g2, f2, gt, sc], alg bls.RogueKeyPreventionAlgorithm) (*signing.Cosigner[g1, f1, g2, f2, gt, sc], error) {
 				return signing.NewShortKeyCosigner(ctx, family, sh, alg)
 			},
@@ -138,7 +141,9 @@ func RunFull(cfg Config) *Result {
 			})
 	case "long":
 		return run[g2, f2, g1, f1, gt, sc](cfg, bls.LongKey, bls12381.NewG2(), bls12381.NewG1(),
-			func(b *mpc.BaseShard[g2, sc]) (*boldyreva02.Shard[g2, f2, g1, f1, gt, sc], error) { return keygen.NewLongKeyShard[g2, f2, g1, f1, gt, sc](b) },
+			func(b *mpc.BaseShard[g2, sc]) (*boldyreva02.Shard[g2, f2, g1, f1, gt, sc], error) {
+				return keygen.NewLongKeyShard[g2, f2, g1, f1, gt, sc](b)
+			},
 			func(ctx *rsess.Context, sh *boldyreva02.Shard[g2, f2, g1, f1, gt, sc], alg bls.RogueKeyPreventionAlgorithm) (*signing.Cosigner[g2, f2, g1, f1, gt, sc], error) {
 				return signing.NewLongKeyCosigner(ctx, family, sh, alg)
 			},
